@@ -93,7 +93,8 @@ theorem rx_body (e : Env F) (u : Cell) (hu : inside e.h e.w u = true) (mst : ASt
     (hst : st.ctl = .run) (hinv : IterInv e u st mst) (fuel : Nat) (k : Nat) (hk : k < e.nbrs.length)
     (hkv : st.ienv "zip1$k" = (k : Int)) :
     (afterBody (exec fuel rxBody st)).ctl = .run ∧
-      IterInv e u (afterBody (exec fuel rxBody st)) (relax e u mst e.nbrs[k]) := by
+      IterInv e u (afterBody (exec fuel rxBody st)) (relax e u mst e.nbrs[k]) ∧
+      (afterBody (exec fuel rxBody st)).fa "path_img" = st.fa "path_img" := by
   have hc := hinv.const
   have ha := hinv.abs
   obtain ⟨hk1, hk2, hoff⟩ := nbrs_get hc k hk
@@ -115,7 +116,7 @@ theorem rx_body (e : Env F) (u : Cell) (hu : inside e.h e.w u = true) (mst : ASt
         rw [inside_iff] at hin; omega
       ilsimp [rx1, st1, hst, hc.height, hc.width, hb]
     rw [h2, relax_outside e u off mst (by rw [← hv]; simpa using hin)]
-    exact ⟨rfl, hinv.of_frame rfl rfl rfl (by keep_tac)⟩
+    exact ⟨rfl, hinv.of_frame rfl rfl rfl (by keep_tac), rfl⟩
   · have hin' := (inside_iff e.h e.w v).1 hin
     have hnb : ¬ ((e.h : Int) - 1 < v.1 ∨ v.1 < 0 ∨ (e.w : Int) - 1 < v.2 ∨ v.2 < 0) := by omega
     have rv1 : inRange v.1 e.h = true := inRange_inside hin'.1 hin'.2.1
@@ -182,7 +183,7 @@ theorem rx_body (e : Env F) (u : Cell) (hu : inside e.h e.w u = true) (mst : ASt
         by_cases hw : (decide ((st.ia "is_open").getD (cidx e.w v) 0 ≠ 0) &&
                 Fl.lt ((st.fa "d_from_start").getD (cidx e.w v) Fl.nan) dval) = true
         · rw [if_pos hw, relax_worse e u off mst (by rw [hmodel]; exact hw)]
-          exact ⟨rfl, hinv.of_frame rfl rfl rfl (by keep_tac)⟩
+          exact ⟨rfl, hinv.of_frame rfl rfl rfl (by keep_tac), rfl⟩
         · rw [if_neg hw]
           have hlt : cidx e.w v < (st.fa "d_from_start").length := by rw [ha.l_g]; exact cidx_lt _ _ _ hin
           have hrel := relax_update e u off mst (by rw [← hv]; exact hin) (by rw [← hv]; exact hcross)
@@ -199,5 +200,29 @@ theorem rx_body (e : Env F) (u : Cell) (hu : inside e.h e.w u = true) (mst : ASt
             | rfl
             | keep_tac
             | (simp [setS_apply, flDist, sqDist, hinv.py, hinv.px]; done)
+
+/-- **the neighbour loop `for y, x in zip(neighbor_ys, neighbor_xs)` is `nbrs.foldl (relax e u)`** -/
+theorem rx_loop (e : Env F) (u : Cell) (hu : inside e.h e.w u = true) (mst : AStar.St F) (st : State F)
+    (hst : st.ctl = .run) (hinv : IterInv e u st mst) (fuel : Nat) :
+    (exec fuel rxLoop st).ctl = .run ∧ IterInv e u (exec fuel rxLoop st) (e.nbrs.foldl (relax e u) mst) ∧
+      (exec fuel rxLoop st).fa "path_img" = st.fa "path_img" := by
+  have hc := hinv.const
+  have hlen : e.nbrs.length = min (st.ia "neighbor_ys").length (st.ia "neighbor_xs").length := by
+    rw [hc.nbrs, List.length_zip]
+  have key := forRange_up "zip1$k" (.bin .min (.dim "neighbor_ys" 0) (.dim "neighbor_xs" 0)) rxBody e.nbrs.length fuel
+    st hst (by simp [IE.ok, hc.s_nys, hc.s_nxs])
+    (by
+      simp only [IE.eval, IOp.eval, hc.s_nys, hc.s_nxs, getD_single_0, hlen]
+      split <;> omega)
+    (fun k st' => IterInv e u st' ((e.nbrs.take k).foldl (relax e u) mst) ∧
+      st'.fa "path_img" = st.fa "path_img")
+    (by simpa using hinv)
+    (fun k hk st' hst' ⟨hinv', hpath'⟩ => by
+      have hb := rx_body e u hu _ { st' with ienv := setS st'.ienv "zip1$k" (k : Int) } hst'
+        (hinv'.of_frame rfl rfl rfl (by keep_tac)) fuel k hk (by simp)
+      rw [List.take_succ_eq_append_getElem hk, List.foldl_append]
+      exact ⟨hb.1, hb.2.1, hb.2.2.trans hpath'⟩)
+  rw [List.take_length] at key
+  exact key
 
 end XrsVerif.IL
